@@ -97,6 +97,10 @@ impl PartialEq for RationalU256 { #[verifier::external_body] fn eq(&self, o: &Ra
 impl PartialOrd for RationalU256 {
     #[verifier::external_body] fn partial_cmp(&self, o: &RationalU256) -> Option<Ordering> { unimplemented!() }
     #[verifier::external_body] fn gt(&self, o: &RationalU256) -> (r: bool) ensures r == rq_gt(self, o) { unimplemented!() }
+    // ASSUMED: the order of fractions is total
+    #[verifier::external_body] fn lt(&self, o: &RationalU256) -> (r: bool) ensures r == rq_gt(o, self) { unimplemented!() }
+    #[verifier::external_body] fn le(&self, o: &RationalU256) -> (r: bool) ensures r == !rq_gt(self, o) { unimplemented!() }
+    #[verifier::external_body] fn ge(&self, o: &RationalU256) -> (r: bool) ensures r == !rq_gt(o, self) { unimplemented!() }
 }
 impl RationalU256 {
     #[verifier::external_body] pub fn new(n: U256, d: U256) -> (r: RationalU256) ensures rq_is_zero(&r) == (uval(&n) == 0) { unimplemented!() }
